@@ -1466,3 +1466,30 @@ def tamper_cases(rng, tier, flavour, oracles, budget):
         seen.add(data)
         out.append(make_case(data, "01234", flavour, oracles, ("tamper:" + TAMPER_KINDS[k], "tamper-topo:" + name)))
     return out
+
+
+def metadata_chain_stream(base, depth):
+    """`base` (a stream without metadata, bitstream >= 1.3) with the METADATA flag set and a geometry metadata block
+    inserted after the 11 header bytes: no attribute metadata, then a single chain of `depth` nested sub-metadata
+    (empty name, no entries) — 3 bytes per level"""
+    hdr = bytearray(base[:11])
+    hdr[10] |= 0x80
+    md = bytes([0]) + bytes([0, 1]) + bytes([0, 0, 1]) * (depth - 1) + bytes([0, 0, 0]) if depth > 0 else bytes([0, 0, 0])
+    return bytes(hdr) + md + base[11:]
+
+
+def metadata_chain_cases(streams, tier, flavour, oracles):
+    """metadata nesting across the decoder's limit (kMaxSubmetadataLevel = 1000) and far beyond it on hand-assembled
+    streams (the encoder refuses to write them, so the round-trip generators of C11 never reach the decoder there):
+    status / geometry vs the Lean model around the limit, and a chain long enough for a recursive destructor or decoder
+    to exhaust the stack if the limit is not enforced (judged by oracle_crash / oracle_status)"""
+    cand = [s for s in streams if len(s.data) > 11 and s.data[8] == 0 and not (s.data[10] & 0x80) and (s.data[5], s.data[6]) >= (2, 0)]
+    if not cand:
+        return []
+    b = min(cand, key=lambda s: len(s.data)).data
+    out = []
+    for d in ([1, 2, 500, 998, 999, 1000, 1001, 1002, 1003, 2000] if tier == "thorough" else [1, 999, 1000, 1001, 1002]):
+        out.append(make_case(metadata_chain_stream(b, d), "01234", flavour, oracles, ("gen:metadata-chain", f"mdchain:{d}")))
+    for d in ((20000, 700000) if tier == "thorough" else (700000,)):
+        out.append(make_case(metadata_chain_stream(b, d), "01234", flavour, oracles, ("gen:metadata-chain", "mdchain:deep"), with_model=False))
+    return out
